@@ -52,6 +52,7 @@ KINDS = [
     "item_ok",
     "item_err",
     "item_unset",
+    "item_ok_flush_raises_after",
 ]
 
 
@@ -114,7 +115,7 @@ class Model(object):
             return ("val", None)
         if k == "batch_raise":
             return ("exc", ("UserErr", ("flush",)))
-        if k == "item_ok":
+        if k in ("item_ok", "item_ok_flush_raises_after"):
             return ("val", ("iv", 0))
         if k == "item_err":
             return ("exc", ("UserErr", ("itemerr",)))
@@ -220,11 +221,14 @@ def make_object(kind, env):
         b.mode = "raise" if kind == "batch_raise" else "ok"
         b.env = env
         return b
-    if kind in ("item_ok", "item_err", "item_unset"):
+    if kind in ("item_ok", "item_err", "item_unset", "item_ok_flush_raises_after"):
         C10Item(rt, "ok")
-        it = C10Item(rt, {"item_ok": "ok", "item_err": "err", "item_unset": "unset"}[kind])
+        it = C10Item(rt, {"item_ok": "ok", "item_err": "err", "item_unset": "unset", "item_ok_flush_raises_after": "ok"}[kind])
         it.batch.env = env
         it.batch.count_item = it
+        if kind == "item_ok_flush_raises_after":
+            # a partial answer: the flush serves this item and then fails
+            it.batch.mode = "raise_after"
         return it
     raise AssertionError(kind)
 
@@ -261,6 +265,8 @@ def C10Item(rt, mode):
                         it.set_value(("iv", 0))
                     elif it.mode == "err":
                         it.set_error(UserErr(("itemerr",)))
+                if self.mode == "raise_after":
+                    raise UserErr(("flush-after-answering",))
 
         class Item(BatchItemBase):
             def __init__(self, rt, mode):
@@ -432,9 +438,9 @@ def run_sequence(kind, seq):
     if not viol:
         if sorted(notes, key=repr) != sorted(m.expected_notes, key=repr):
             viol.append(("subscriber-notifications", {"expected": sorted(m.expected_notes, key=repr), "observed": sorted(notes, key=repr)}))
-        if env["computes"] != m.computes and kind not in ("batch_ok", "batch_raise", "item_ok", "item_err", "item_unset", "task_item"):
+        if env["computes"] != m.computes and kind not in ("batch_ok", "batch_raise", "item_ok", "item_err", "item_unset", "item_ok_flush_raises_after", "task_item"):
             viol.append(("computation-run-count", {"expected": m.computes, "observed": env["computes"]}))
-        if kind in ("batch_ok", "batch_raise", "item_ok", "item_err", "item_unset") and env["computes"] > 1:
+        if kind in ("batch_ok", "batch_raise", "item_ok", "item_err", "item_unset", "item_ok_flush_raises_after") and env["computes"] > 1:
             viol.append(("computation-run-count", {"expected": "<=1 flush body", "observed": env["computes"]}))
     return viol, bool(completions and observed_after), len(notes)
 
